@@ -3,8 +3,8 @@
    Models: Model/BufferModel.v, Model/ListModel.v; specification: Model/BufferSpec.v and the
    `lspec_*` part of ListModel.v; proofs: Proofs/BufferProofs.v, Proofs/ListProofs.v. *)
 From Coq Require Import List NArith.
-From Wbxml Require Import Model.Codec Model.BufferModel Model.BufferSpec Model.ListModel
-  Proofs.BufferProofs Proofs.BufferSearchProofs Proofs.ListProofs.
+From Wbxml Require Import Model.Codec Model.BufferModel Model.BufferSpec Model.ListModel Model.BufferAlloc
+  Proofs.BufferProofs Proofs.BufferSearchProofs Proofs.BufferWordsProofs Proofs.BufferAllocProofs Proofs.ListProofs.
 Import ListNotations.
 
 (* (a) the invariant: no store outside the allocated cells ever happened; a static buffer's len is
@@ -21,25 +21,81 @@ Theorem C19_terminator : forall b, Inv b -> bstatic b = false -> cells b <> [] -
 Proof. exact Inv_terminator. Qed.
 Print Assumptions C19_terminator.
 
-(* (a)+(b) one operation: contents, static mark and returned value are those of the plain byte string
-   (spec_step), and the invariant is preserved.  PARTIAL: proved for every operation except
-   split_words (proved_op_s = false for it only; its result is tied to words_spec by the
-   correspondence check and the python oracle only; that it leaves the buffer unchanged is
-   C19_static_refuses' read-only clause for static buffers and split_words_readonly in general).
+(* (a)+(b) one operation, ANY operation: contents, static mark and returned value are those of the
+   plain byte string (spec_step), and the invariant is preserved.
    op_ok = the documented contract: delete ranges inside the contents, sizes below 2^32. *)
-Theorem C19_step_refines_partial : forall b o, Inv b -> op_ok (abs b) o = true -> proved_op_s o = true ->
+Theorem C19_step_refines : forall b o, Inv b -> op_ok (abs b) o = true ->
   abs (fst (step b o)) = fst (spec_step (abs b) o) /\
   snd (step b o) = snd (spec_step (abs b) o) /\
   Inv (fst (step b o)).
-Proof. exact step_refines_s. Qed.
-Print Assumptions C19_step_refines_partial.
+Proof. exact step_refines_all. Qed.
+Print Assumptions C19_step_refines.
 
 (* ... lifted to all finite operation sequences (fold over `run`): after every operation *)
-Theorem C19_run_refines_partial : forall ops b, Inv b -> ops_ok (abs b) ops = true -> forallb proved_op_s ops = true ->
+Theorem C19_run_refines : forall ops b, Inv b -> ops_ok (abs b) ops = true ->
   map (fun x => (abs (fst x), snd x)) (run b ops) = spec_run (abs b) ops /\
   Forall (fun x => Inv (fst x)) (run b ops).
-Proof. exact run_refines_s. Qed.
-Print Assumptions C19_run_refines_partial.
+Proof. exact run_refines_all. Qed.
+Print Assumptions C19_run_refines.
+
+(* --- allocation refusal (Model/BufferAlloc.v: every malloc / realloc request of an operation is
+   answered by an oracle) ------------------------------------------------------------------- *)
+
+(* with every request granted the oracle model IS the model above *)
+Theorem C19_alloc_granted : forall b o, step_a [] b o = step b o.
+Proof. exact step_a_granted. Qed.
+Print Assumptions C19_alloc_granted.
+
+(* whatever the oracle answers: every operation except decode_base64 / encode_base64 is either
+   exactly the operation above, or leaves the buffer UNCHANGED and returns FALSE (NULL for the
+   creating functions and split_words).  No invariant is needed for this. *)
+Theorem C19_alloc_all_or_nothing : forall orc b o,
+  match o with ODecodeB64 | OEncodeB64 => True | _ =>
+    step_a orc b o = step b o \/
+    (fst (step_a orc b o) = b /\ (snd (step_a orc b o) = RBool false \/ snd (step_a orc b o) = RNull))
+  end.
+Proof. exact alloc_all_or_nothing. Qed.
+Print Assumptions C19_alloc_all_or_nothing.
+
+(* the two operations that can apply PARTIALLY, with exactly what they leave behind:
+   decode_base64 — the white space is already removed when the result block is refused
+                   (third case: the append after the deletion refused; it needs a longer text than
+                   the one deleted, so it does not arise for decoding, but the statement covers it);
+   encode_base64 — unchanged if the result block is refused, EMPTIED if the append is refused *)
+Theorem C19_alloc_base64_partial : forall orc b,
+  (step_a orc b ODecodeB64 = step b ODecodeB64 \/
+   (bstatic b = false /\ step_a orc b ODecodeB64 = (fst (no_spaces b), RBool false)) \/
+   (bstatic b = false /\ step_a orc b ODecodeB64 = (emptied (fst (no_spaces b)), RBool false))) /\
+  (step_a orc b OEncodeB64 = step b OEncodeB64 \/
+   step_a orc b OEncodeB64 = (b, RBool false) \/
+   (bstatic b = false /\ step_a orc b OEncodeB64 = (emptied b, RBool false))).
+Proof. intros orc b. split; [apply alloc_decode_base64 | apply alloc_encode_base64]. Qed.
+Print Assumptions C19_alloc_base64_partial.
+
+(* hence: under any oracle an operation refines the plain-sequence specification or is refused
+   without effect ... *)
+Theorem C19_alloc_refines : forall orc b o, Inv b -> op_ok (abs b) o = true ->
+  match o with ODecodeB64 | OEncodeB64 => True | _ =>
+    (abs (fst (step_a orc b o)) = fst (spec_step (abs b) o) /\
+     snd (step_a orc b o) = snd (spec_step (abs b) o) /\ Inv (fst (step_a orc b o))) \/
+    (fst (step_a orc b o) = b /\ failed (snd (step_a orc b o)))
+  end.
+Proof. exact step_a_refines. Qed.
+Print Assumptions C19_alloc_refines.
+
+(* ... and the invariant (one NUL after the contents, no store outside the cells) survives every
+   refusal, the partial applications included *)
+Theorem C19_alloc_invariant : forall orc b o, Inv b -> op_ok (abs b) o = true -> Inv (fst (step_a orc b o)).
+Proof. exact step_a_Inv. Qed.
+Print Assumptions C19_alloc_invariant.
+
+(* lists: a refused element leaves the list unchanged, FALSE *)
+Theorem C19_list_alloc : forall orc l o, LInv l ->
+  (chain (fst (lstep_a orc l o)) = fst (lspec_step (chain l) o) /\
+   snd (lstep_a orc l o) = snd (lspec_step (chain l) o) /\ LInv (fst (lstep_a orc l o))) \/
+  lstep_a orc l o = (l, LRBool false).
+Proof. exact lstep_a_refines. Qed.
+Print Assumptions C19_list_alloc.
 
 (* (d) a static buffer refuses every mutation: state unchanged, FALSE (void for no_spaces) *)
 Theorem C19_static_refuses : forall b o, bstatic b = true ->
@@ -93,16 +149,26 @@ Proof. split; [reflexivity | split; [reflexivity | apply Inv_create; reflexivity
 
 Example C19_ex_sequence :
   let ops := [OAppendCstr [32; 32; 97; 9; 10; 98; 32; 0; 99]; OShrink; OStrip; OInsert [120; 121] 1; ODelete 0 1;
-              OSetChar 9 1; OBinToHex true; OHexToBin; OAppendMb 300; ORemoveTrailingZeros; OEncodeB64; ODecodeB64; OSearch [32; 98] 1]%N in
-  ops_ok (abs (create [] 0%N)) ops = true /\ forallb proved_op_s ops = true /\
+              OSetChar 9 1; OBinToHex true; OHexToBin; OAppendMb 300; ORemoveTrailingZeros; OEncodeB64; ODecodeB64; OSearch [32; 98] 1; OSplitWords]%N in
+  ops_ok (abs (create [] 0%N)) ops = true /\
   map (fun x => (contents (fst x), snd x)) (run (create [] 0%N) ops) =
     [([32; 32; 97; 9; 10; 98; 32], RBool true); ([32; 97; 32; 98; 32], RBool true); ([97; 32; 98], RBool true);
      ([97; 120; 121; 32; 98], RBool true); ([120; 121; 32; 98], RBool true); ([120; 121; 32; 98], RBool false);
      ([55; 56; 55; 57; 50; 48; 54; 50], RBool true); ([120; 121; 32; 98], RBool true);
      ([120; 121; 32; 98; 130; 44], RBool true); ([120; 121; 32; 98; 130; 44], RBool true);
      ([101; 72; 107; 103; 89; 111; 73; 115], RBool true); ([120; 121; 32; 98; 130; 44], RBool true);
-     ([120; 121; 32; 98; 130; 44], RVal (Some 2))]%N.
+     ([120; 121; 32; 98; 130; 44], RVal (Some 2)); ([120; 121; 32; 98; 130; 44], RWords [[120; 121]; [98; 130; 44]])]%N.
 Proof. vm_compute. repeat split. Qed.
 
 Example C19_ex_static : fst (step (sta_create [1; 2]%N) (OAppendChar 3%N)) = sta_create [1; 2]%N.
 Proof. reflexivity. Qed.
+
+(* a refused realloc: unchanged, FALSE; a refused result block / append inside encode_base64 *)
+Example C19_ex_refusal :
+  step_a [false] (create [1; 2]%N 0%N) (OAppendChar 3%N) = (create [1; 2]%N 0%N, RBool false) /\
+  step_a [true] (create [1; 2]%N 0%N) (OAppendChar 3%N) = step (create [1; 2]%N 0%N) (OAppendChar 3%N) /\
+  step_a [false] (create [1; 2]%N 100%N) (OAppendChar 3%N) = step (create [1; 2]%N 100%N) (OAppendChar 3%N) /\
+  contents (fst (step_a [true; false] (create [1; 2]%N 0%N) OEncodeB64)) = [] /\
+  snd (step_a [true; false] (create [1; 2]%N 0%N) OEncodeB64) = RBool false /\
+  step_a [true; false] (create [1; 2]%N 0%N) (OCreate [7]%N 0%N) = (create [1; 2]%N 0%N, RNull).
+Proof. vm_compute. repeat split. Qed.
